@@ -1,11 +1,25 @@
 (* C10 -- the overlay shows the overlayfs union of its layers and never modifies lowers.
    Only statements, closed by [exact]; proofs live in Proofs/Overlay*.v. *)
 From Coq Require Import List String NArith Bool.
-From FB Require Import Model.Overlay Proofs.OverlayInv.
+From FB Require Import Model.Overlay Proofs.OverlayInv Proofs.OverlayScan Proofs.OverlayRestart.
 Import ListNotations.
 Local Open Scope string_scope.
 Local Open Scope N_scope.
 Local Open Scope list_scope.
+
+(* The scan of a fresh overlay yields exactly the overlayfs union, for all layer contents
+   (layer roots are directories whose directories have distinct names): top-most entry wins,
+   directories merge, whiteouts hide, opaque directories cut off what is below. *)
+Theorem C10_scan_is_merge : forall u ls nx, Forall layer_ok (all_layers u ls) ->
+  view (load_all (fresh u ls nx)) = merge (all_layers u ls).
+Proof. exact scan_is_merge. Qed.
+
+(* Per-operation refinement (Definition C10_op_refines_full in Proofs/OverlayRestart.v: every step
+   changes the view and answers as an ordinary in-memory file system would) is NOT proved; the
+   faithful model refutes it as stated, because copy-up drops extended attributes (known finding).
+   It is checked on every run by evaluating [fs_apply] on the implementation's observations. *)
+Theorem C10_op_refines_refuted : ~ C10_op_refines_full.
+Proof. exact op_refines_refuted. Qed.
 
 (* Invariant of the node cache: a backing inode flagged in_upper_layer lives in layer 0 and only
    exists when there is an upper layer.  It holds for a freshly imported overlay ... *)
@@ -46,11 +60,23 @@ Proof.
   cbv zeta. split; [apply (proj1 (load_all_inv true _ (fresh_inv (Some _) _ _)))|].
   vm_compute. repeat split.
 Qed.
+Example C10_scan_nonvacuous :
+  let u := Dir 493 [] [("d", Dir 493 [("user.overlay.opaque", [121])] [("n", File 1 420 [] [])]); ("w", Wh)] in
+  let l := Dir 493 [] [("d", Dir 448 [] [("o", File 2 420 [] [])]); ("w", Lnk [97]); ("z", Dir 493 [] [])] in
+  Forall layer_ok (all_layers (Some u) [l]) /\
+  ser_opt (merge (all_layers (Some u) [l])) = "d1ed(d=d1ed(n=f1a4:,),z=d1ed(),)".
+Proof.
+  cbv zeta. split; [|vm_compute; reflexivity].
+  repeat (first [apply Forall_cons | apply Forall_nil | split | apply wf_dir | apply wf_file | apply wf_lnk | apply wf_wh
+                | apply NoDup_cons | apply NoDup_nil | (cbn; intuition discriminate) | reflexivity ]).
+Qed.
 Example C10_no_upper_nonvacuous :
   let l := Dir 493 [] [("f", File 1 420 [104; 105] [])] in
   Inv false (fresh None [l] 1000) /\ fst (step (OWrite ["f"] 0 [33]) (fresh None [l] 1000)) = Err EOTHER.
 Proof. split; [exact (fresh_inv None _ _)|vm_compute; reflexivity]. Qed.
 
+Print Assumptions C10_scan_is_merge.
+Print Assumptions C10_op_refines_refuted.
 Print Assumptions C10_fresh_invariant.
 Print Assumptions C10_lowers_untouched.
 Print Assumptions C10_lowers_untouched_history.
